@@ -41,7 +41,9 @@ class ValueStore:
         """
         Store Value data.
         """
-        if self.has(value_hash):
+        if self.size(value_hash) == len(data):
+            # Already stored. An object of a different size is the remains of an interrupted
+            # write (objects are content-addressed) and is written again.
             return
 
         with File(self.get_value_path(value_hash)).open("wb") as out:
